@@ -20,7 +20,7 @@ def run(rep, tier, seed):
     rep.assumptions += ["spec/Budget.tla: charge before work (plain 1, dice batch n, every round of an exploding pool, call +100), error in the step that exceeds; TLC checks Accounting, FailClosed, BoundedWork, Monotone, Terminates for every adversarial instruction sequence (and that BoundedWork FAILS when rounds are not charged, the behaviour of the pinned code)",
                         "spec/apalache/BudgetInd.tla: the invariants of Budget as an inductive invariant for unconstrained Limit and MaxBatch, discharged by Apalache on every run",
                         "work = instructions dispatched at every depth (H1) + dice rolled (H2); bounds: work <= ops at every dispatch (exact accounting: every instruction and every die is charged before it happens - since bb9553d also Fate dice and the D100 of CoC rolls; measured maximum of work - ops over all cases: 0), work <= 1.5*limit + 200 at the end, and the counter read by the host after the run accounts for the work",
-                        "every case runs in a child process with ceilings 45 s and 1.5 GB heap; budgets 300 and 30000 (recommended), parse budget 10^7 (recommended) except in the parse-budget family; normal, max and min mode",
+                        "every case runs in a child process with ceilings 60 s of processor time (ten minutes by the clock) and 1.5 GB heap; budgets 300 and 30000 (recommended), parse budget 10^7 (recommended) except in the parse-budget family; normal, max and min mode",
                         "families: unbounded loops/recursion (also through computed values, templates, callbacks), huge dice counts, exploding WoD/DC pools (low add line, huge sides, max mode), doubling strings and containers, "
                         "budget sweep: corpus and generated programs under budgets 1..400 against their own run under budget 200000 (stopped with the budget error, or the same value/error); "
                         "container lengths: repetition, concatenation and ranges around 512 elements in every operand order, in loops, functions, templates and computed values (the length returned is at most 512, or an error); "
